@@ -182,6 +182,10 @@ void explore_limits(Ctx &ctx) {
         for (size_t d = 0; d < 3; d++) { ov.push_back({ cnt, q + d }); ov.push_back({ q + d, cnt }); }
         ov.push_back({ cnt, SIZE_MAX }); ov.push_back({ SIZE_MAX, cnt });
     }
+    // both factors above 2^32 (and other splits of 64 bits): the true product exceeds 2^64 while the wrapped product is a moderate, allocatable
+    // number that is not smaller than either factor - the add-style overflow idiom (total < count) does not notice these
+    for (size_t i = 0; i < 4; i++) for (size_t j = 0; j < 4; j++) ov.push_back({ ((size_t) 1 << 32) + i, ((size_t) 1 << 32) + j });
+    for (int sh : { 33, 40, 48, 56, 63 }) for (size_t i = 1; i < 3; i++) { ov.push_back({ ((size_t) 1 << sh) + i, ((size_t) 1 << (64 - sh)) + i }); ov.push_back({ ((size_t) 1 << (64 - sh)) + i, ((size_t) 1 << sh) + i }); }
     for (auto &pr : ov) {
         if (!ctx.mine(idx++)) continue;
         // count*size >= SIZE_MAX (mathematically) or wraps: must fail with ENOMEM
